@@ -299,7 +299,12 @@ func (h *Hist) OpAuthorize() AuthResult {
 		case 3:
 			a.Debt++
 		case 4:
-			a.Expiration--
+			// earlier or later: a renewal is a conflict like any other
+			if c.Chance("expiration-later", 1, 2) {
+				a.Expiration++
+			} else {
+				a.Expiration--
+			}
 		case 5:
 			a.Initialization++
 		case 6:
